@@ -97,6 +97,9 @@ def solve(ob, timeout_ms, both, extra_axioms=()):
         s.add(h)
     for a in extra_axioms:
         s.add(a)
+    from . import coll
+    for a in coll.member_axioms():
+        s.add(a)
     if ob.meta.get("sigma_ext"):
         from . import sigma
         # two-run proofs over sums: extensionality instances for corresponding atomic sums (nested: three rounds),
